@@ -1262,6 +1262,15 @@ static void initializer2(Token **rest, Token *tok, Initializer *init) {
     return;
   }
 
+  // An array of character type may be initialized by a string literal
+  // enclosed in braces (C11 6.7.9p14).
+  if (init->ty->kind == TY_ARRAY && is_integer(init->ty->base) &&
+      equal(tok, "{") && tok->next->kind == TK_STR && is_end(tok->next->next)) {
+    string_initializer(&tok, tok->next, init);
+    consume_end(rest, tok);
+    return;
+  }
+
   if (init->ty->kind == TY_ARRAY) {
     if (equal(tok, "{"))
       array_initializer1(rest, tok, init);
